@@ -53,7 +53,6 @@ from .ast_nodes import (
     SourceLocation,
 )
 
-
 # Operator precedence (higher = binds tighter)
 PRECEDENCE = {
     "||": 1,
@@ -996,9 +995,18 @@ class Parser:
         """Parse postfix expression (member access, calls, postfix ++/--)."""
         return self._continue_postfix_expression(self._parse_new_expression())
 
-    def _continue_postfix_expression(self, expr: Node) -> Node:
-        """Apply member accesses, calls and postfix ++/-- to an operand."""
+    def _continue_postfix_expression(
+        self, expr: Node, members_only: bool = False
+    ) -> Node:
+        """Apply member accesses, calls and postfix ++/-- to an operand.
+
+        members_only stops in front of a call or ++/--: the constructor named
+        after `new` is a member expression, and the parenthesis that follows it
+        holds the arguments of the construction.
+        """
         while True:
+            if members_only and not self._check(TokenType.DOT, TokenType.LBRACKET):
+                break
             if self._match(TokenType.DOT):
                 # Member access: a.b (keywords allowed as property names)
                 if self._check(TokenType.IDENTIFIER):
@@ -1036,7 +1044,10 @@ class Parser:
     def _parse_new_expression(self) -> Node:
         """Parse new expression."""
         if self._match(TokenType.NEW):
-            callee = self._parse_new_expression()
+            # new a.b.c(x) constructs a.b.c: the callee is a member expression
+            callee = self._continue_postfix_expression(
+                self._parse_new_expression(), members_only=True
+            )
             args: List[Node] = []
             if self._match(TokenType.LPAREN):
                 args = self._parse_arguments()
